@@ -49,11 +49,11 @@ pub fn run_c15(cfg: &RunCfg, trace: bool) -> RunOut {
     let pct1: u32 = cfg.extra.get("pend_pct_a").and_then(|s| s.parse().ok()).unwrap_or(30);
     let pct2: u32 = cfg.extra.get("pend_pct_b").and_then(|s| s.parse().ok()).unwrap_or(70);
     let os = crate::rng::mix(cfg.order_seed, 0);
-    let a1 = match abuild(spec, os, cfg.permute, crate::rng::mix(cfg.seed, 0xA1), pct1) {
+    let mut a1 = match abuild(spec, os, cfg.permute, crate::rng::mix(cfg.seed, 0xA1), pct1) {
         Ok(a) => a,
         Err(e) => return RunOut { harness_error: Some(format!("async stack: {}", e)), ..Default::default() },
     };
-    let a2 = match abuild(spec, os, cfg.permute, crate::rng::mix(cfg.seed, 0xA2), pct2) {
+    let mut a2 = match abuild(spec, os, cfg.permute, crate::rng::mix(cfg.seed, 0xA2), pct2) {
         Ok(a) => a,
         Err(e) => return RunOut { harness_error: Some(format!("async stack: {}", e)), ..Default::default() },
     };
@@ -72,6 +72,20 @@ pub fn run_c15(cfg: &RunCfg, trace: bool) -> RunOut {
             let op = &cfg.ops[i - 1];
             let want = cx.world.apply(op);
             cx.grow_universe();
+            if matches!(op, Op::Reopen) && cx.exec.slots.is_empty() && x1.slots.is_empty() && x2.slots.is_empty() {
+                // restart on all three: new adapters over the same layers
+                let rs = cx.built[0].reopen(spec);
+                let r1 = areopen(&mut a1, spec);
+                let r2 = areopen(&mut a2, spec);
+                if let Some(e) = rs.err().or(r1.err()).or(r2.err()) {
+                    cx.out.harness_error = Some(e);
+                    break;
+                }
+                cx.exec.roots[0] = cx.built[0].root.clone();
+                x1.root = a1.root.clone();
+                x2.root = a2.root.clone();
+                cx.out.count("fault.restart_adapters_rebuilt");
+            }
             let rs = cx.exec.exec(op);
             let mut st1 = PollStats::default();
             let mut st2 = PollStats::default();
